@@ -189,6 +189,10 @@ func (st *fragState) apply(op []string, o *hx.Out) {
 			return st.drain()
 		case "mb-ncols":
 			return strconv.Itoa(mbapp.VerifNumCollectors(st.mrecv))
+		case "mb-errcode":
+			n, _ := strconv.ParseInt(op[1], 10, 64)
+			code, l := mbapp.VerifExtractErrorCode(int(n))
+			return fmt.Sprintf("%d %d", code, l)
 		}
 		return "bad-op"
 	})
@@ -299,6 +303,9 @@ func fragScenario(r *rand.Rand, kind string, honest bool, exec func(op string) s
 	inner := hx.Pick(r, over-1, over, over+1, over+2, over+5, 32, 40, 64, 100, 300, 1200)
 	cfg := hx.Pick(r, 10, 100, 1000, 5000, 30000, 100000)
 	mtuS := exec(fmt.Sprintf("%s-new %d %d", kind, inner, cfg))
+	if kind == "mb" { // what a handler's return value becomes on the wire
+		exec(fmt.Sprintf("mb-errcode %d", hx.Pick(r, 0, 1, 5, 255, 256, 70000, -1, -2, -255, -256, -257, -512, -65536, -1<<31, -1<<40, -r.Intn(1<<20)-1)))
+	}
 	mtu, _ := strconv.Atoi(strings.TrimPrefix(mtuS, "mtu="))
 	var pool []fragPkt
 	nmsg := 1 + r.Intn(5)
